@@ -128,6 +128,10 @@ def check(an: Analysis) -> None:
         # the callback must invoke `completion(<the metrics>)` in every variant
         cbfuns = [nf for nf in init.nested]
         arg = cbs[0][1].args[0] if cbs[0][1].args else None
+        dinit = Deps(prog, init)
+        for _hop in range(3):  # `cb = <nested def>` / the return value of an inlined factory
+            if isinstance(arg, ast.Name) and not any(nf.name == arg.id for nf in cbfuns) and (sv := dinit.single_value(arg.id)) is not None:
+                arg = sv
         if not (isinstance(arg, ast.Name) and any(nf.name == arg.id for nf in cbfuns)):
             ob.fail(init, cbs[0][1], "the done-callback is not one of the local completion wrappers")
         for nf in cbfuns:
